@@ -61,6 +61,112 @@ pub struct Parts {
     pub kb: Option<String>,
 }
 
+/// Write `v` as JSON text that parses to the same document but is spelled differently:
+/// mode 1: every character of every member name as \uXXXX; 2: last character of names and first
+/// character of string values escaped; 3: pretty-printed white space; 4: one character of the
+/// reserved member names (_sd, ..., _sd_alg) and of every string inside arrays escaped;
+/// 5: white space + '/' written as "\/" + upper-case hex digits. Mode 0 = serde_json's own text.
+pub fn respell(v: &Value, mode: u64) -> String {
+    fn esc(c: char, upper: bool, out: &mut String) {
+        let mut buf = [0u16; 2];
+        for u in c.encode_utf16(&mut buf) {
+            if upper {
+                out.push_str(&format!("\\u{:04X}", u));
+            } else {
+                out.push_str(&format!("\\u{:04x}", u));
+            }
+        }
+    }
+    fn string(s: &str, mode: u64, is_key: bool, in_array: bool, out: &mut String) {
+        let n = s.chars().count();
+        let reserved = is_key && (s == "_sd" || s == "..." || s == "_sd_alg");
+        out.push('"');
+        for (i, c) in s.chars().enumerate() {
+            let force = match mode {
+                1 => is_key,
+                2 => (is_key && i + 1 == n) || (!is_key && i == 0),
+                4 => (reserved && i == n / 2) || (!is_key && in_array && i == 0),
+                _ => false,
+            };
+            if force || (c as u32) < 0x20 {
+                esc(c, mode == 5, out);
+            } else if c == '"' {
+                out.push_str("\\\"");
+            } else if c == '\\' {
+                out.push_str("\\\\");
+            } else if c == '/' && mode == 5 {
+                out.push_str("\\/");
+            } else {
+                out.push(c);
+            }
+        }
+        out.push('"');
+    }
+    fn go(v: &Value, mode: u64, in_array: bool, depth: usize, out: &mut String) {
+        let ws = mode == 3 || mode == 5;
+        let nl = |out: &mut String, d: usize| {
+            if ws {
+                out.push('\n');
+                for _ in 0..d {
+                    out.push_str(if mode == 5 { "\t" } else { "  " });
+                }
+            }
+        };
+        match v {
+            Value::String(s) => string(s, mode, false, in_array, out),
+            Value::Array(a) => {
+                out.push('[');
+                for (i, e) in a.iter().enumerate() {
+                    if i > 0 {
+                        out.push(',');
+                    }
+                    nl(out, depth + 1);
+                    go(e, mode, true, depth + 1, out);
+                }
+                if !a.is_empty() {
+                    nl(out, depth);
+                }
+                out.push(']');
+            }
+            Value::Object(m) => {
+                out.push('{');
+                for (i, (k, e)) in m.iter().enumerate() {
+                    if i > 0 {
+                        out.push(',');
+                    }
+                    nl(out, depth + 1);
+                    string(k, mode, true, false, out);
+                    out.push(':');
+                    if ws {
+                        out.push(' ');
+                    }
+                    go(e, mode, false, depth + 1, out);
+                }
+                if !m.is_empty() {
+                    nl(out, depth);
+                }
+                out.push('}');
+            }
+            other => out.push_str(&other.to_string()),
+        }
+    }
+    if mode == 0 {
+        return v.to_string();
+    }
+    let mut out = String::new();
+    go(v, mode, false, 0, &mut out);
+    if mode == 5 {
+        out.push('\n');
+    }
+    out
+}
+
+/// A validly signed token of the ES256 test issuer with claims no generated credential has.
+pub fn foreign_token() -> &'static str {
+    static T: std::sync::OnceLock<String> = std::sync::OnceLock::new();
+    T.get_or_init(|| crate::api::sign_payload(crate::keys::Alg::ES256, 0, &json!({"iss": "https://issuer.example/A", "exp": 4_102_444_799u64, "foreign#zz;": true}), None))
+}
+
 impl Parts {
     /// Independent parser, strict about the grammar of each format.
     pub fn parse(fmt: Fmt, s: &str) -> Result<Parts, String> {
@@ -131,9 +237,11 @@ impl Parts {
     }
 
     /// JSON form. `variant` picks among equivalent encodings of "no KB-JWT" and member order /
-    /// extra unknown members (C10). Returns None when the jwt is not three dot-separated parts.
+    /// extra unknown members (C10). Returns None when the jwt has fewer than three dot-separated parts.
     pub fn to_json(&self, variant: u64) -> Option<String> {
-        let p: Vec<&str> = self.jwt.split('.').collect();
+        // a JWT with more than two dots keeps the surplus in the signature member, so that
+        // protected + "." + payload + "." + signature is the same string in both formats
+        let p: Vec<&str> = self.jwt.splitn(3, '.').collect();
         if p.len() != 3 {
             return None;
         }
@@ -157,7 +265,14 @@ impl Parts {
         }
         // unknown members whose NAMES come from neighbouring serialisations (general JWS JSON,
         // newer drafts): they must be ignored like any other unknown member
-        match (variant / 256) % 12 {
+        match (variant / 256) % 16 {
+            // an intact FOREIGN token (valid signature of the ES256 test issuer, other claims) in an
+            // unknown member: the flattened members stay the only source of truth
+            9 => members.push(("jwt".into(), json!(foreign_token()))),
+            10 => members.push(("token".into(), json!(format!("{}~", foreign_token())))),
+            11 => members.push(("compact".into(), json!(foreign_token()))),
+            12 => members.push(("credential".into(), json!({"jwt": foreign_token(), "disclosures": []}))),
+            13 => members.push(("sd-jwt".into(), json!(foreign_token()))),
             1 => members.push(("header".into(), json!({"kid": "k", "alg": "none"}))),
             2 => members.push(("header".into(), json!({"disclosures": self.disclosures.iter().rev().cloned().collect::<Vec<_>>(), "kb_jwt": "a.b.c"}))),
             3 => members.push(("header".into(), json!("str"))),
